@@ -222,9 +222,9 @@ void psCRL_RemoveAll()
 #  ifdef USE_MULTITHREADING
     psLockMutex(&g_crlTableLock);
 #  endif /* USE_MULTITHREADING */
+    /* The cache may be empty: another thread (or nobody yet) got there first */
     curr = g_CRL;
-    next = curr->next;
-    while (next)
+    while (curr)
     {
         next = curr->next;
         curr->next = NULL;
